@@ -108,7 +108,7 @@ def _inline_into(host, bb_index, callee, tymap):
         return u
 
     for cb in callee['blocks']:
-        nb = {'cleanup': cb['cleanup'] or host_cleanup, 'stmts': [], 'term': None}
+        nb = {'cleanup': cb['cleanup'] or host_cleanup, 'stmts': [], 'term': None, 'inl': callee['name']}
         for s in cb['stmts']:
             s = dict(s)
             k = s['k']
@@ -164,6 +164,32 @@ def _inline_into(host, bb_index, callee, tymap):
         host['blocks'].append(nb)
 
 
+def _adapt_closure_call(host, t, closure):
+    """Rewrites `Fn*::call*(f, (a, b, ..))` into a plain call `closure(f, a, b, ..)` when the way the closure value is passed matches what
+    its body expects (by reference for call / call_mut, by value for call_once).  Returns the new terminator or None."""
+    if closure is None or closure.get('coroutine') or len(t['args']) != 2 or t['args'][0]['k'] not in ('copy', 'move'):
+        return None
+    method = t.get('method') or (t['func'].get('fn') or '').split('::')[-1]
+    env_ty = closure['locals'][1]['ty'].strip() if len(closure['locals']) > 1 else ''
+    passed = t['args'][0]['pl']['ty'].strip()
+    want = {'call': '&', 'call_mut': '&mut ', 'call_once': '{'}.get(method)
+    if want is None or not env_ty.startswith(want) or not passed.startswith(want) or (method == 'call' and env_ty.startswith('&mut ')):
+        return None
+    n = closure['arg_count'] - 1
+    args = [t['args'][0]]
+    tup = t['args'][1]
+    if n > 0:
+        if tup['k'] not in ('copy', 'move') or tup['pl']['p']:
+            return None
+        for i in range(n):
+            ty = closure['locals'][2 + i]['ty']
+            args.append({'k': 'move', 'pl': {'l': tup['pl']['l'], 'p': [{'k': 'field', 'i': i, 'n': str(i), 'bty': tup['pl']['ty'], 'ty': ty}], 't': '(_%d.%d)' % (tup['pl']['l'], i), 'ty': ty}})
+    nt = dict(t)
+    nt['args'] = args
+    nt['closure_call'] = closure['name']
+    return nt
+
+
 def flatten(j):
     """Returns the fact dict with new helper functions inlined at their in-crate call sites; marks them `helper`."""
     known = known_fns()
@@ -203,6 +229,15 @@ def flatten(j):
                     callee = t['resolved']
                 elif t['func'].get('fn') in helpers and t.get('rk') != 'virtual':
                     callee = t['func']['fn']
+                elif b.get('inl') and (t.get('trait') or '').startswith('core::ops::function::Fn') and str(t.get('self_ty', '')).startswith('{closure:'):
+                    # inside an inlined helper, a call of its closure parameter is now a call of a known closure: inline that too, so that
+                    # `helper(|| test())` reads like the loop it replaced
+                    cname = t['self_ty'][len('{closure:'):-1]
+                    adapted = _adapt_closure_call(f, t, fns.get(cname))
+                    if adapted is not None and cname not in stack and depth < MAX_DEPTH:
+                        t = adapted
+                        b['term'] = t
+                        callee = cname
                 if callee is None or callee in stack or callee == name or depth >= MAX_DEPTH:
                     continue
                 cf = flat(callee, depth + 1, stack | {name})
@@ -210,7 +245,7 @@ def flatten(j):
                     continue
                 params = [g['name'] for g in cf.get('generics', []) if g['kind'] != 'lifetime' and not g['name'].startswith('<')]
                 fnargs = t['func'].get('fnargs', [])
-                tymap = dict((p, a) for p, a in zip(params, fnargs) if p != a) if len(params) == len(fnargs) else {}
+                tymap = dict((p, a) for p, a in zip(params, fnargs) if p != a) if len(params) == len(fnargs) and not t.get('closure_call') else {}
                 _inline_into(f, bi, cf, tymap)
                 changed = True
                 break
